@@ -103,6 +103,14 @@ def show(p):
     return "Comp[%s]" % ",".join(show(q) for q in p["ps"])
 
 
+def long_flat_states():
+    out = []
+    for n_parts in (10, 11, 12, 23):
+        ks = [1 + (i * i + i // 3) % 3 for i in range(n_parts)]
+        out.append({"prog": {"t": "comp", "ps": [{"t": "atom", "k": k} for k in ks]}, "fwd": [(k, "fwd") for k in ks], "inv": [(k, "inv") for k in reversed(ks)]})
+    return out
+
+
 def prog_task(task):
     warnings.filterwarnings("ignore")
     import torch
@@ -230,6 +238,9 @@ def ms_task(task):
             wrong = [p for p in range(N) if tuple(y.shape) == (B, N) and not torch.equal(y[:, p], exp[:, p])][:4]
             out["fails"].append(dict(case, clause="routing", detail="forward output slots %s differ from the documented routing (slot <- coordinate %s through stages 1..%s)" % (wrong, [route[p] for p in wrong], [stages[p] for p in wrong])))
             continue
+        if lad.dtype != torch.float64 or y.dtype != torch.float64:
+            out["fails"].append(dict(case, clause="logabsdet", detail="float64 inputs give outputs of dtype %s and a log-abs-det of dtype %s" % (y.dtype, lad.dtype)))
+            continue
         if lad.shape != (B,) or not torch.allclose(lad, torch.full((B,), elad, dtype=torch.float64), rtol=1e-12, atol=1e-12):
             out["fails"].append(dict(case, clause="logabsdet", detail="forward logabsdet %s, sum over the stages is %.12g" % (lad.tolist(), elad)))
         # inverse undoes the routing
@@ -294,7 +305,7 @@ def main(run, replay=None):
         if c["kind"] == "program":
             deep = "rot" in c
             res = T.run_tlc("Compose", T.cfg(constants=deep_const if deep else {"NumAtoms": 3, "Depth": 2, "MaxParts": 3}), dump=True, coverage=False, workers=4)
-            sts = [s for s in parse_dump(res.dump) if show(s["prog"]) == c["prog"]]
+            sts = [s for s in parse_dump(res.dump) if show(s["prog"]) == c["prog"]] or [s for s in long_flat_states() if show(s["prog"]) == c["prog"]]
             out = prog_task((sts, c["seed"], c["rot"]) if deep else (sts, c["seed"]))
         else:
             res = T.run_tlc("Multiscale", T.cfg(constants={"MaxRank": 3, "MaxSize": max(4, max(c["shape"])), "MaxStages": 3}), dump=True, coverage=False, workers=4)
@@ -337,6 +348,11 @@ def main(run, replay=None):
     mss = parse_dump(res2.dump)
     fails = []
     for out in pmap(prog_task, [(progs[i::nproc], run.seed + s) for i in range(nproc) for s in ((0, 1) if thorough else (0,)) if progs[i::nproc]], nproc):
+        run.evaluations += out["n"]
+        fails += out["fails"]
+    # flat composites far longer than the enumeration bound (the denotation law for a flat composite - the parts in
+    # order, the inverse in reverse order - is what Compose.tla proves for every length it enumerates)
+    for out in pmap(prog_task, [([st_], run.seed) for st_ in long_flat_states()], nproc):
         run.evaluations += out["n"]
         fails += out["fails"]
     for out in pmap(prog_task, [(deep[i::nproc], run.seed, run.seed + i) for i in range(nproc) if deep[i::nproc]], nproc):
